@@ -108,7 +108,10 @@ def classify(data, harnesses):
                     hr.other_failures.append(rec)
             elif cst == "undetermined":
                 pass
-        if st == "success":
+        if hr.n_checks == 0 and st != "success":
+            # CBMC crashed / ran out of memory / timed out: no verdict
+            hr.status = "error"
+        elif st == "success":
             hr.status = "success"
         elif st in ("failure", "failed"):
             hr.status = "failure"
